@@ -51,10 +51,13 @@ def grouped(p):
         for k, _ in items:
             if k not in order:
                 order.append(k)
+        buckets, wf = D.lifetimes(log)         # groups are created in order of first appearance: bucket by creation order, not by the index values handed out
+        if len(buckets) != len(order) or not wf:
+            return fail(pipeline=C.show(desc), items=items, problem='group lifecycles at the tail of the inner pipeline', log=log, stream_error=err)
         for gi, k in enumerate(order):
             vals = [v for kk, v in items if kk == k]
             exp = _plain(vals, desc)
-            got = [e[2] for e in log if e[0] == 'n' and e[1] == gi]
+            got = buckets[gi]
             if exp and exp[-1] == ('ERR', EMPTY_ERR):
                 continue       # precondition of the statement: first/last/reduce applied to an empty sequence
             if got != exp or err:
@@ -201,10 +204,11 @@ class Floats(object):
                 if k not in order:
                     order.append(k)
             res = []
+            buckets, _wf = D.lifetimes(log)     # bucket by creation order of the groups
             for gi, k in enumerate(order):
                 exp = []
                 D.src([v for kk, v in items if kk == k]).pipe(*FLOAT_PROGS[prog]()).subscribe(on_next=exp.append, on_error=lambda e: exp.append(('ERR', repr(e))))
-                got = [e[2] for e in log if e[0] == 'n' and e[1] == gi]
+                got = buckets[gi] if gi < len(buckets) else []
                 res.append((k, got, exp))
         return res, err
 
@@ -287,10 +291,11 @@ class Floats(object):
             if k not in order:
                 order.append(k)
         diff = None
+        buckets, _wf = D.lifetimes(log)
         for gi, k in enumerate(order):
             exp = []
             D.src([v for kk, v in items if kk == k]).pipe(*FLOAT_PROGS[a['prog']]()).subscribe(on_next=exp.append, on_error=lambda e: exp.append(('ERR', repr(e))))
-            got = [e[2] for e in log if e[0] == 'n' and e[1] == gi]
+            got = buckets[gi] if gi < len(buckets) else []
             if got != exp or err:
                 diff = dict(items=items, group=k, observed=got, expected=exp, err=err)
                 break
